@@ -245,3 +245,70 @@ func (b *loadStoreVmcnt1) Verify() {
 		}
 	}
 }
+
+
+// copyOverlapsKernel: two command queues of one process. Kernel K1 (k8 of the CU world: out[gid] = local id + 9)
+// runs on queue 1 and is drained. Then K2 (the same kernel, another output buffer) is enqueued on queue 1 and,
+// while it runs, queue 2 reads K1's output back in Chunks pieces; both queues are drained and the host reads K2's
+// output. Every command observes what completed before it; no two commands race. A flush acknowledged for queue
+// 2's copies while K2 is still writing must not make the later read-back of K2's output skip its own flush.
+type copyOverlapsKernel struct {
+	driver  *driver.Driver
+	context *driver.Context
+	gpus    []int
+	Items   int
+	Chunks  int
+	useUM   bool
+
+	out1, out2 []uint32
+}
+
+func newCopyOverlapsKernel(d *driver.Driver, p map[string]int) *copyOverlapsKernel {
+	b := &copyOverlapsKernel{driver: d, Items: def(p, "items", 65536), Chunks: def(p, "chunks", 8)}
+	b.context = d.Init()
+	return b
+}
+
+func (b *copyOverlapsKernel) SelectGPU(gpus []int) { b.gpus = gpus }
+func (b *copyOverlapsKernel) SetUnifiedMemory()    { b.useUM = true }
+
+func (b *copyOverlapsKernel) Run() {
+	b.driver.SelectGPU(b.context, b.gpus[len(b.gpus)-1])
+	alloc := func() driver.Ptr {
+		if b.useUM {
+			return b.driver.AllocateUnifiedMemory(b.context, uint64(4*b.Items))
+		}
+		return b.driver.AllocateMemory(b.context, uint64(4*b.Items))
+	}
+	o1, o2 := alloc(), alloc()
+	b.driver.MemCopyH2D(b.context, o1, make([]uint32, b.Items))
+	b.driver.MemCopyH2D(b.context, o2, make([]uint32, b.Items))
+	co := cuworld.DriverCodeObject(cuworld.LoadKernels("")["k8_store_then_endpgm"], 64)
+	q1 := b.driver.CreateCommandQueue(b.context)
+	q2 := b.driver.CreateCommandQueue(b.context)
+	grid, wg := [3]uint32{uint32(b.Items), 1, 1}, [3]uint16{64, 1, 1}
+	b.driver.EnqueueLaunchKernel(q1, co, grid, wg, &scalarReuploadArgs{Out: o1, Mask: 63})
+	b.driver.DrainCommandQueue(q1)
+	b.driver.EnqueueLaunchKernel(q1, co, grid, wg, &scalarReuploadArgs{Out: o2, Mask: 63})
+	b.out1 = make([]uint32, b.Items)
+	per := b.Items / b.Chunks
+	for c := 0; c < b.Chunks; c++ {
+		b.driver.EnqueueMemCopyD2H(q2, b.out1[c*per:(c+1)*per], o1+driver.Ptr(4*c*per))
+	}
+	b.driver.DrainCommandQueue(q2)
+	b.driver.DrainCommandQueue(q1)
+	b.out2 = make([]uint32, b.Items)
+	b.driver.MemCopyD2H(b.context, b.out2, o2)
+}
+
+func (b *copyOverlapsKernel) Verify() {
+	for i := range b.out1 {
+		want := uint32(i%64) + 9
+		if b.out1[i] != want {
+			log.Panicf("Mismatch in the first kernel's output at %d, expected %d, but get %d", i, want, b.out1[i])
+		}
+		if b.out2[i] != want {
+			log.Panicf("Mismatch in the second kernel's output at %d, expected %d, but get %d", i, want, b.out2[i])
+		}
+	}
+}
